@@ -350,7 +350,7 @@ pub fn run(ctx: &Ctx) {
 
     // ---- (1) depth-1 product enumeration: every unary op on the k_unary lattice
     let k_un = match (sp.n, quick) {
-        (5, true) => 5,
+        (5, true) => 7,
         (5, false) => 11,
         (_, true) => 2,
         (_, false) => 3,
@@ -394,7 +394,7 @@ pub fn run(ctx: &Ctx) {
 
     // ---- (2) depth-1 product enumeration: every binary op on pairs
     let k_pair = match (sp.n, quick) {
-        (5, true) => 3,
+        (5, true) => 4,
         (5, false) => 5,
         (_, _) => 2,
     };
